@@ -2,6 +2,7 @@
 import gen_bank as G
 import gen_hops as H
 import hops_oracles as O
+from props import c12 as C12
 ID = "C01"
 MANIFEST = {
     "text": ("Kernel-checked theorems over the instruction-handler model (deposit, withdraw(all), borrow, repay(all), close_balance, "
@@ -19,7 +20,8 @@ MANIFEST = {
     "technique": "Coq proof (handler inversion + exact integer inequalities per primitive + induction over histories) + model/implementation correspondence at handler level (real handlers in the sim runtime)",
 }
 THEOREMS = ["C01_step", "C01_allowance_is", "C01_accrual_allowance", "C01_wellformedness_preserved", "C01_HOk2_implies_HOk", "C01_hypotheses_checkable",
-            "C01_history", "C01_history_given_wellformed_states", "C01_purge_gap"]
+            "C01_history", "C01_history_given_wellformed_states", "C01_purge_gap",
+            "C01_deleverage_withdraw_gap", "C01_deleverage_repay_gap", "C01_deleverage_tx_keeps_world"]
 RULE = ("instruction sequences (deposit incl. up-to-limit, withdraw / withdraw-all, borrow with origination fee, repay / repay-all, "
         "close_balance, liquidate, bankruptcy, accrue, collect_fees, clock advances, price changes) by 1-4 users over 1-3 banks with "
         "SPL / Token-2022 / transfer-fee mints, seven-point curves and fee settings drawn at random; scenario stream (70%) builds "
@@ -44,10 +46,60 @@ def suites(rng, tier):
              "count": (lambda out: out.strip() == "1"),
              "distribution": {"cases": m, "note": "the extracted boolean checker hok2b (proved sound: hok2b w = true -> HOk2 w) evaluated on the initial world of every generated case: how many tested histories start in a world that satisfies the hypotheses of the C01 theorems"}},
             {"suite": "hopsref", "name": "hops-solvency-reference", "lines": hl, "impl_only": True,
-             "distribution": {"cases": m, "note": "same cases with the real accrue_interest applied in isolation: gives the accrued share values the allowance is computed from"}}]
+             "distribution": {"cases": m, "note": "same cases with the real accrue_interest applied in isolation: gives the accrued share values the allowance is computed from"}},
+            {"suite": "delevsim", "name": "deleverage-purge-solvency",
+             "lines": [C12.gen_delev_case(rng) for _ in range({"quick": 300, "thorough": 5000, "search": 2000}[tier])],
+             "distribution": {"note": "forced-deleverage transactions (start; withdrawals / repayments; end) and purge_delev_balance through the real handlers: per successful instruction no bank's gap drops by more than the accrual allowance plus rounding, except the sanctioned token-less write-off of a sunset bank; a purge never lowers it"}}]
+
+
+def delev_banks(outp):
+    secs = outp.split(" # ")
+    out = []
+    for b in secs[1].split(" ; "):
+        t = list(map(int, b.split()))
+        out.append({"asv": t[0], "lsv": t[1], "tas": t[2], "tls": t[3], "ins": t[4], "grp": t[5], "prog": t[6],
+                    "flags": t[11], "op_state": t[12], "vault": t[13]})
+    return out
+
+
+def oracle_delevsim(case, impl):
+    """C01 on the deleverage suite: compare every successful instruction's post-state with the last committed state"""
+    try:
+        nb, na, banks, ops = C12.parse_delev_case(case)
+    except Exception:
+        return None
+    parts = impl.split(" | ")
+    if len(parts) != len(ops):
+        return None
+    prev = None
+    for o_, outp in zip(ops, parts):
+        if not outp.startswith("OK"):
+            continue
+        cur = delev_banks(outp)
+        if prev is not None:
+            for k in range(nb):
+                b0, b1 = prev[k], cur[k]
+                if b0["asv"] <= 0 or b1["op_state"] == 3:
+                    continue
+                if (b0["flags"] | b1["flags"]) & 32:
+                    continue          # sunset bank (TOKENLESS_REPAYMENTS_ALLOWED): the risk admin's token-less write-off is sanctioned
+                touched = any(b1[f] != b0[f] for f in ("asv", "lsv", "tas", "tls", "ins", "grp", "prog", "vault"))
+                if not touched:
+                    continue
+                steps = 1 + (len(o_) if o_[0] == 31 else 0)       # a deleverage transaction holds several instructions
+                allow = steps * (O.accrual_allowance(b0, b1) + 2 * (b1["asv"] + b1["lsv"]) + 2 * ONE)
+                if O.gap(b1) < O.gap(b0) - allow:
+                    return {"key": "gap-dropped-beyond-allowance",
+                            "what": f"deleverage-suite op {o_[0]}: bank {k} gap fell from {O.gap(b0)} to {O.gap(b1)} (allowance {allow})"}
+                if o_[0] == 33 and O.gap(b1) < O.gap(b0):
+                    return {"key": "purge-lowered-gap", "what": f"purge: bank {k} gap fell from {O.gap(b0)} to {O.gap(b1)}"}
+        prev = cur
+    return None
 
 
 def nontrivial(suite, case, impl):
+    if suite == "delevsim":
+        return C12.nontrivial(suite, case, impl)
     tr = O.Trace(case, impl)
     return tr.ok and sum(1 for x in O.walk(tr) if x[1] == "OK" and x[0][0] in (1, 2, 3, 4, 17, 18)) >= 3
 
@@ -73,6 +125,8 @@ def step_slack(op, k, b0, b1, ref):
 
 
 def oracle(suite, case, impl):
+    if suite == "delevsim":
+        return oracle_delevsim(case, impl)
     tr = O.Trace(case, impl)
     if not tr.ok:
         return None
